@@ -275,6 +275,14 @@ class Check:
         if p.returncode != 0 or len(models) != len(ops):
             err = f"driver exited {p.returncode}, {len(models)} outputs for {len(ops)} ops: {p.stderr[-500:]}"
         cases = list(zip(ops, impls, models + ["<missing>"] * (len(ops) - len(models)), sites))
+        if not os.environ.get("VERIF_KEEP"):
+            # the op stream and the harness output are in memory now (failing cases go to replays/): the scratch
+            # files of a thorough run add up to gigabytes, so they are not kept (VERIF_KEEP=1 keeps them)
+            for f in (outp, opf):
+                try:
+                    os.remove(f)
+                except OSError:
+                    pass
         return dict(seed=seed, n=n, error=err, cases=cases, meta=meta)
 
     def correspondence(self, cfg):
